@@ -328,6 +328,33 @@ def _alloc_like(a, dtype, shape, fill):
     return out
 
 
+def histogram(a, bins=10, range=None, density=None, weights=None, **k):
+    """numpy.histogram for 1-d data: explicit edges give half-open bins [e_k, e_k+1) with the last one closed; an integer number of
+    bins gives that many equal-width bins over `range` (default: min..max of the data)"""
+    data = list(a)
+    w = list(weights) if weights is not None else [1] * len(data)
+    if len(w) != len(data):
+        raise ValueError("weights should have the same shape as a")
+    if isinstance(bins, int) and not isinstance(bins, bool):
+        lo, hi = (range if range is not None else ((min(data), max(data)) if data else (0.0, 1.0)))
+        if lo == hi:
+            lo, hi = lo - 0.5, hi + 0.5
+        edges = [lo + (hi - lo) * i / bins for i in __import__("builtins").range(bins + 1)]
+    else:
+        edges = list(bins)
+        if any(y < x for x, y in zip(edges[:-1], edges[1:])):
+            raise ValueError("bins must increase monotonically")
+    out = [0] * (len(edges) - 1)
+    for x, wi in zip(data, w):
+        if x < edges[0] or x > edges[-1]:
+            continue
+        idx = bisect.bisect_right(edges, x) - 1
+        if idx == len(edges) - 1:
+            idx -= 1
+        out[idx] = out[idx] + wi
+    return (NumArr(out), NumArr(edges))
+
+
 def num_summaries():
     def arr(x, *a, **k):
         out = x.copy() if isinstance(x, NumArr) else NumArr(list(x)) if _is_seq(x) else x
@@ -369,7 +396,8 @@ def num_summaries():
         "np.asanyarray": lambda x, *a, **k: (x if isinstance(x, NumArr) else arr(x, *a, **k)), "np.copy": arr, "np.searchsorted": searchsorted, "np.where": where,
         "np.minimum": pair(min), "np.maximum": pair(max), "np.clip": clip,
         "np.any": lambda a: any(bool(x) for x in a), "np.all": lambda a: all(bool(x) for x in a),
-        "np.zeros": lambda n, *a, **k: _alloc(n, 0, "int" if _dtype_name(k.get("dtype", a[0] if a else None)) == "int" else None),
+        "np.zeros": lambda shape=None, dtype=None, *a, **k: _alloc(shape, 0, "int" if _dtype_name(dtype) == "int" else None),
+        "np.histogram": histogram,
         "np.arange": lambda *a: NumArr(list(range(*a))), "np.isin": lambda a, b: NumArr([x in list(b) for x in a]),
         "np.diff": lambda a: NumArr([y - x for x, y in zip(list(a)[:-1], list(a)[1:])]),
         "np.cumsum": lambda a: NumArr(a).cumsum(), "np.argmin": lambda a: NumArr(a).argmin(), "np.argmax": lambda a: NumArr(a).argmax(),
@@ -385,7 +413,7 @@ def num_summaries():
         "np.atleast_1d": lambda a: a if isinstance(a, NumArr) else NumArr(list(a) if _is_seq(a) else [a]),
         "np.ones": lambda n, *a, **k: NumArr([1] * n),
         "np.full": lambda n, v, *a, **k: NumArr([v] * n) if isinstance(n, int) else (NumArr([v] * n[0]) if len(n) == 1 else NumArr([[v] * n[1] for _ in range(n[0])])),
-        "np.empty": lambda n, *a, **k: _alloc(n, 0, "int" if _dtype_name(k.get("dtype", a[0] if a else None)) == "int" else None),
+        "np.empty": lambda shape=None, dtype=None, *a, **k: _alloc(shape, 0, "int" if _dtype_name(dtype) == "int" else None),
         "np.inf": float("inf"), "np.dot": dot, "np.matmul": dot,
         "np.size": lambda a, axis=None: (a.size if axis is None else a.shape[axis]) if isinstance(a, NumArr) else (len(a) if _is_seq(a) else 1),
         "np.shape": lambda a: a.shape if isinstance(a, NumArr) else (len(a),) if _is_seq(a) else (),
